@@ -55,6 +55,121 @@ func isBareReturn(s ast.Stmt) bool {
 
 type errNorm struct {
 	loopCall map[string]string // marker in a loop header -> name of the pseudo call that stands for the loop
+	rel      string            // the file (helpers of the same file that are not ErrCalls callees are inlined)
+	opaque   map[string]string // ErrCalls of the unit: callees that stay calls
+	// while the body of an inlined helper is rewritten: what the caller does after the call, and the assignments that hand the
+	// helper's results to the caller's variables at each of its returns
+	k      []ast.Stmt
+	inK    bool
+	copies []ast.Stmt
+	depth  int
+}
+
+func (n errNorm) isOpaque(name string) bool {
+	for k := range n.opaque {
+		if strings.HasPrefix(norm(name), norm(strings.SplitN(k, "(", 2)[0])) {
+			return true
+		}
+	}
+	for _, c := range n.loopCall {
+		if c == name {
+			return true
+		}
+	}
+	return false
+}
+
+// afterFailure: what the caller does with a non-nil err right after the call — only "return it at once" is followed
+func (n errNorm) failsAtOnce() bool {
+	if len(n.k) == 0 {
+		return false
+	}
+	if isBareReturn(n.k[0]) {
+		return true
+	}
+	if is, ok := n.k[0].(*ast.IfStmt); ok && is.Init == nil && norm(src(is.Cond)) == "err!=nil" && len(is.Body.List) == 1 && isBareReturn(is.Body.List[0]) {
+		return true
+	}
+	return false
+}
+
+// afterSuccess: the caller's continuation when the helper returned with a nil err
+func (n errNorm) afterSuccess() []ast.Stmt {
+	k := n.k
+	if len(k) > 0 {
+		if is, ok := k[0].(*ast.IfStmt); ok && is.Init == nil && norm(src(is.Cond)) == "err!=nil" {
+			k = k[1:]
+		}
+	}
+	caller := n
+	caller.k, caller.inK, caller.copies = nil, false, nil
+	return append(append([]ast.Stmt{}, n.copies...), caller.block(k, false)...)
+}
+
+// inline: `l1, …, err = helper(a1, …)` with helper a same-file function with NAMED results whose last one is err: the helper's
+// body with its parameters bound to the arguments, its integer results zeroed, and every return continued by the caller's rest
+func (n errNorm) inline(a *ast.AssignStmt, rest []ast.Stmt) ([]ast.Stmt, bool) {
+	if n.rel == "" || n.depth > 2 || len(a.Rhs) != 1 {
+		return nil, false
+	}
+	c, ok := a.Rhs[0].(*ast.CallExpr)
+	if !ok {
+		return nil, false
+	}
+	id, ok := c.Fun.(*ast.Ident)
+	if !ok || n.isOpaque(id.Name) {
+		return nil, false
+	}
+	f, err := parser.ParseFile(fset, rp(n.rel), nil, 0)
+	if err != nil {
+		return nil, false
+	}
+	h := findFunc(f, id.Name)
+	if h == nil || h.Body == nil || h.Type.Results == nil {
+		return nil, false
+	}
+	var resNames []string
+	var resTypes []string
+	for _, fl := range h.Type.Results.List {
+		if len(fl.Names) == 0 {
+			return nil, false
+		}
+		for _, nm := range fl.Names {
+			resNames = append(resNames, nm.Name)
+			resTypes = append(resTypes, src(fl.Type))
+		}
+	}
+	if len(resNames) != len(a.Lhs) || resNames[len(resNames)-1] != "err" || src(a.Lhs[len(a.Lhs)-1]) != "err" {
+		return nil, false
+	}
+	var pre []ast.Stmt
+	i := 0
+	for _, fl := range h.Type.Params.List {
+		for _, nm := range fl.Names {
+			if i < len(c.Args) && src(c.Args[i]) != nm.Name && nm.Name != "_" {
+				pre = append(pre, &ast.AssignStmt{Lhs: []ast.Expr{ast.NewIdent(nm.Name)}, Tok: token.DEFINE, Rhs: []ast.Expr{c.Args[i]}})
+			}
+			i++
+		}
+	}
+	var copies []ast.Stmt
+	for j, r := range resNames[:len(resNames)-1] {
+		if resTypes[j] == "int" {
+			pre = append(pre, &ast.AssignStmt{Lhs: []ast.Expr{ast.NewIdent(r)}, Tok: token.ASSIGN, Rhs: []ast.Expr{&ast.BasicLit{Kind: token.INT, Value: "0"}}})
+		}
+		if src(a.Lhs[j]) != r && src(a.Lhs[j]) != "_" {
+			copies = append(copies, &ast.AssignStmt{Lhs: []ast.Expr{a.Lhs[j]}, Tok: token.ASSIGN, Rhs: []ast.Expr{ast.NewIdent(r)}})
+		}
+	}
+	inner := n
+	inner.k, inner.inK, inner.copies, inner.depth = rest, true, copies, n.depth+1
+	body := h.Body.List
+	if len(body) == 0 || !isBareReturn(body[len(body)-1]) {
+		if _, isRet := body[len(body)-1].(*ast.ReturnStmt); !isRet {
+			body = append(append([]ast.Stmt{}, body...), &ast.ReturnStmt{})
+		}
+	}
+	return append(pre, inner.block(body, false)...), true
 }
 
 func ret1(e ast.Expr) ast.Stmt { return &ast.ReturnStmt{Results: []ast.Expr{e}} }
@@ -65,9 +180,17 @@ func (n errNorm) block(list []ast.Stmt, underErr bool) []ast.Stmt {
 	for i := 0; i < len(list); i++ {
 		s := list[i]
 		if e, ok := isErrAssign(s); ok && i+1 < len(list) && isBareReturn(list[i+1]) {
+			if n.inK && !n.failsAtOnce() {
+				panic(bail{"inlined helper: the caller does not return a failure at once"})
+			}
 			out = append(out, ret1(errClass(e)))
 			i++
 			continue
+		}
+		if a, ok := s.(*ast.AssignStmt); ok && (a.Tok == token.ASSIGN || a.Tok == token.DEFINE) {
+			if inl, ok := n.inline(a, list[i+1:]); ok {
+				return append(out, inl...)
+			}
 		}
 		// `x <<= k; x |= e` (e below 2^k: a byte or a 7-bit group) is `x = x*2^k + e`
 		if a1, ok := s.(*ast.AssignStmt); ok && a1.Tok == token.SHL_ASSIGN && i+1 < len(list) {
@@ -85,9 +208,16 @@ func (n errNorm) block(list []ast.Stmt, underErr bool) []ast.Stmt {
 		case *ast.ReturnStmt:
 			switch {
 			case len(x.Results) == 0 && underErr:
+				if n.inK && !n.failsAtOnce() {
+					panic(bail{"inlined helper: the caller does not return a failure at once"})
+				}
 				out = append(out, ret1(ast.NewIdent("err")))
+			case len(x.Results) == 0 && n.inK:
+				out = append(out, n.afterSuccess()...)
 			case len(x.Results) == 0:
 				out = append(out, ret1(ast.NewIdent("nil")))
+			case n.inK:
+				panic(bail{"inlined helper: return with values"})
 			default:
 				out = append(out, ret1(errClass(x.Results[len(x.Results)-1])))
 			}
@@ -228,6 +358,36 @@ func pureLocals(fd *ast.FuncDecl, t *tr, list []ast.Stmt) []ast.Stmt {
 	return out
 }
 
+// derWithConsts: package-level `const X = <integer literal>` of the file are known to the unit by value (a literal turned into
+// a named constant, or back, is the same body)
+func derWithConsts(f *ast.File, sp Spec) Spec {
+	repl := map[string]string{}
+	for k, v := range sp.Repl {
+		repl[k] = v
+	}
+	for _, d := range f.Decls {
+		g, ok := d.(*ast.GenDecl)
+		if !ok || g.Tok != token.CONST {
+			continue
+		}
+		for _, s := range g.Specs {
+			vs, ok := s.(*ast.ValueSpec)
+			if !ok || len(vs.Names) != len(vs.Values) {
+				continue
+			}
+			for i, nm := range vs.Names {
+				if lit, ok := vs.Values[i].(*ast.BasicLit); ok && lit.Kind == token.INT {
+					if _, taken := repl[nm.Name]; !taken {
+						repl[nm.Name] = "(" + lit.Value + " : Int)"
+					}
+				}
+			}
+		}
+	}
+	sp.Repl = repl
+	return sp
+}
+
 // freshFunc parses a private copy of the file (the cached AST is shared with other units and must not be rewritten)
 func freshFunc(rel, fn string) (*ast.File, *ast.FuncDecl) {
 	f, err := parser.ParseFile(fset, rp(rel), nil, 0)
@@ -248,9 +408,10 @@ func errBodyKernel(rel, fn, leanName, params string, loopCall map[string]string,
 	return func() string {
 		f, fd := freshFunc(rel, fn)
 		sp.Ret, sp.Status, sp.StatusIdx = "status", errCodes, 0
+		sp = derWithConsts(f, sp)
 		t := &tr{sp: sp, file: f}
 		t.prepare(fd)
-		body := t.block(errNorm{loopCall}.block(pureLocals(fd, t, fd.Body.List), false), "(0 : Nat)", "  ")
+		body := t.block(errNorm{loopCall: loopCall, rel: rel, opaque: sp.ErrCalls}.block(pureLocals(fd, t, fd.Body.List), false), "(0 : Nat)", "  ")
 		return fmt.Sprintf("/-- generated from %s func %s (whole body; 0 = nil, 1 = SyntaxError, 2 = StructuralError, 3 = another fresh error, 4 = the failing callee's error) -/\ndef %s %s : Nat :=\n  %s%s\n", rel, fn, leanName, params, sp.Prelude, body)
 	}
 }
@@ -277,8 +438,40 @@ func errLoopKernel(rel, fn, marker, leanName, params, resultTy, fall string, sp 
 			}
 			return true
 		})
+		if cnt == 0 {
+			// the loop may have moved into a helper of the same file that fn calls
+			ast.Inspect(fd.Body, func(nd ast.Node) bool {
+				if c, ok := nd.(*ast.CallExpr); ok {
+					if id, ok := c.Fun.(*ast.Ident); ok {
+						if h := findFunc(f, id.Name); h != nil && h.Body != nil && h != fd {
+							ast.Inspect(h.Body, func(nd2 ast.Node) bool {
+								if l, ok := nd2.(*ast.ForStmt); ok {
+									hdr := ""
+									if l.Init != nil {
+										hdr += src(l.Init)
+									}
+									if l.Cond != nil {
+										hdr += "; " + src(l.Cond)
+									}
+									if strings.Contains(hdr, marker) {
+										body = l.Body
+										cnt++
+									}
+								}
+								return true
+							})
+						}
+					}
+				}
+				return true
+			})
+		}
 		if cnt != 1 {
 			panic(bail{fmt.Sprintf("%s: expected exactly one loop over %q in %s, found %d", rel, marker, fn, cnt)})
+		}
+		sp = derWithConsts(f, sp)
+		if sp.ContinueVal == "" {
+			sp.ContinueVal = fall
 		}
 		t := &tr{sp: sp, file: f}
 		t.prepare(fd)
@@ -287,73 +480,17 @@ func errLoopKernel(rel, fn, marker, leanName, params, resultTy, fall string, sp 
 	}
 }
 
-// wrapperKernel: handlerKernel that follows a final `return helper(…)` into a helper of the same file (its body continues the
-// caller's; the state variables flow on)
-func wrapperKernel(rel, fn, leanName, params, resultTy, prelude, tail string, sp Spec) func() string {
-	return func() string {
-		fd := mustFunc(rel, fn)
-		file := parseFile(rp(rel))
-		list := fd.Body.List
-		cont := tail
-		if n := len(list); n > 0 {
-			if r, ok := list[n-1].(*ast.ReturnStmt); ok && len(r.Results) == 1 {
-				if c, ok := r.Results[0].(*ast.CallExpr); ok {
-					if id, ok := c.Fun.(*ast.Ident); ok {
-						if h := findFunc(file, id.Name); h != nil && h.Body != nil {
-							th := &tr{sp: sp, file: file}
-							th.prepare(h)
-							cont = th.block(h.Body.List, tail, "  ")
-							list = list[:n-1]
-						}
-					}
-				}
-			}
-		}
-		t := &tr{sp: sp, file: file}
-		t.prepare(fd)
-		return fmt.Sprintf("/-- generated from %s func %s (whole body, a final `return helper(…)` followed into the helper) -/\ndef %s %s : %s :=\n  %s%s\n", rel, fn, leanName, params, resultTy, prelude, t.block(list, cont, "  "))
-	}
-}
-
 func init() {
 	a := "asn1/asn1.go"
 	x := "x509/x509.go"
-	// what an x509 wrapper hands back: object 0 = nil, 1 = what parseCertificate returned; error 0 = nil, 1 = an error made /
-	// received by the envelope step (plain), 2 = parseCertificate's own error passed on unchanged, 3 = the collector nfe
-	wr := map[string]int{"nil": 0, "ret": 1, "laxErr": 1, `asn1.SyntaxError{Msg: "trailing data"}`: 1, "err": 2, "nfe": 3, "*nfe": 3}
-	wrapper := func(fn, lean string) unit {
-		return unit{fn, wrapperKernel(x, fn, lean,
-			"(strictFails laxFails trailing innerFails innerIsNfe : Bool) (innerN : Nat)", "Int × Int × Nat", "let nfe_ := (0 : Nat)\n  ", "((0 : Int), (0 : Int), nfe_)",
-			Spec{Kind: "i64", Lazy: true, Inline: true, Ret: "state", StateVars: []string{"nfe_"}, Status: wr,
-				IgnoreLHS:    []string{"cert", "tbsCert", "nfe", "laxErr", "rest"},
-				ErrCalls:     map[string]string{"asn1.Unmarshal(": "strictFails", "parseCertificate": "innerFails"},
-				Effects:      map[string]string{"nfe.AddError": "nfe_ := nfe_ + 1"},
-				AppendEffect: map[string]string{"stmt:nfe.Errors=append(nfe.Errors,errs.Errors...)": "nfe_ := nfe_ + innerN"},
-				Repl: map[string]string{"len(rest) > 0": "trailing", "len(rest) != 0": "trailing", "!ok": "(!innerIsNfe)", "nfe.HasError()": "(decide (nfe_ > 0))",
-					"len(nfe.Errors) > 0": "(decide (nfe_ > 0))", "laxErr != nil": "laxFails"}})}
-	}
 	conv := map[string]string{"int": "id", "int64": "id"}
 	register(genFile{name: "DerTie", imports: []string{"CTV.Basic.I64", "CTV.Basic.Bits"}, units: []unit{
-		{"IsFatal", handlerKernel(x, "IsFatal", "isFatalBody", "(isNil isNfe isErrors errsFatal : Bool)", "Bool", "", "true",
-			Spec{Kind: "i64", Lazy: true,
-				InitCond:   map[string]string{"_, ok := err.(NonFatalErrors) ; ok": "isNfe", "errs, ok := err.(*Errors) ; ok": "isErrors"},
-				TypeSwitch: map[string]map[string]string{"err": {"nil": "isNil", "NonFatalErrors": "isNfe", "*Errors": "isErrors"}},
-				Repl:       map[string]string{"err == nil": "isNil", "errs.Fatal()": "errsFatal"}})},
-		wrapper("ParseCertificate", "parseCertificateBody"),
-		wrapper("ParseTBSCertificate", "parseTBSCertificateBody"),
+		symIsFatal(x),
+		symWrapper(x, "ParseCertificate", "parseCertificateBody"),
+		symWrapper(x, "ParseTBSCertificate", "parseTBSCertificateBody"),
 		// ParseCertificates: one iteration of each of its two loops (9 in the error position = go on with the next element)
-		{"ParseCertificates.split", loopBodyKernel(x, "ParseCertificates", "len(asn1Data) > 0", "parseCertificatesSplitStep", "(strictFails laxFails : Bool) (nfe_ : Nat)", "Int × Int × Nat", "((0 : Int), (9 : Int), nfe_)",
-			Spec{Kind: "i64", Lazy: true, Ret: "state", StateVars: []string{"nfe_"}, Status: wr,
-				IgnoreLHS: []string{"cert", "nfe", "laxErr", "rest", "asn1Data", "v"},
-				ErrCalls:  map[string]string{"asn1.Unmarshal(": "strictFails"},
-				Effects:   map[string]string{"nfe.AddError": "nfe_ := nfe_ + 1"},
-				Repl:      map[string]string{"laxErr != nil": "laxFails"}})},
-		{"ParseCertificates.inner", loopBodyKernel(x, "ParseCertificates", "v", "parseCertificatesInnerStep", "(innerFails innerIsNfe : Bool) (innerN nfe_ : Nat)", "Int × Int × Nat", "((0 : Int), (9 : Int), nfe_)",
-			Spec{Kind: "i64", Lazy: true, Ret: "state", StateVars: []string{"nfe_"}, Status: wr,
-				IgnoreLHS:    []string{"cert", "nfe", "ret[i]"},
-				ErrCalls:     map[string]string{"parseCertificate": "innerFails"},
-				AppendEffect: map[string]string{"stmt:nfe.Errors=append(nfe.Errors,errs.Errors...)": "nfe_ := nfe_ + innerN"},
-				Repl:         map[string]string{"!ok": "(!innerIsNfe)"}})},
+		symStep(x, "ParseCertificates", "asn1.Unmarshal", "parseCertificatesSplitStep", "(strictFails laxFails : Bool) (nfe_ : Nat)", []string{"strictFails", "laxFails"}),
+		symStep(x, "ParseCertificates", "parseCertificate", "parseCertificatesInnerStep", "(innerFails innerIsNfe : Bool) (innerN nfe_ : Nat)", []string{"innerFails", "innerIsNfe"}),
 		{"checkInteger", errBodyKernel(a, "checkInteger", "checkIntegerBody", "(len : Int) (lax_ : Bool) (b0 b1 : Int)", nil,
 			Spec{Kind: "i64", Lazy: true, Canon: true, ParamNames: []string{"bytes", "lax", "fieldName"},
 				Repl: map[string]string{"len(bytes)": "len", "bytes[0]": "b0", "bytes[1]": "b1"}})},
